@@ -45,23 +45,29 @@ structure Sampling where
 
 def wOf (d : Dict Rat) (k : Nat) : Rat := (d.get? k).getD 0
 
+/-- `edge_sampling[t]` and `node_sampling[t]` for the merge of `i` and `j` in the current aggregate graph -/
+def samplingOf (n : Nat) (g : AggGraph Rat) (i j : Nat) : Rat × Rat :=
+  let e0 : Rat := if (row g.nb i).contains j then 2 * getEntry g.nb i j else 0
+  let nd0 : Rat := wOf g.outW i * wOf g.inW j + wOf g.outW j * wOf g.inW i
+  let nodes := if i = j then [i] else [i, j]
+  nodes.foldl (fun (p : Rat × Rat) node =>
+      if node < n then
+        (if (row g.nb node).contains node then p.1 + getEntry g.nb node node else p.1,
+         p.2 + wOf g.outW node * wOf g.inW node)
+      else p) (e0, nd0)
+
+/-- `cluster_weight[t]` (before the final division by 2) -/
+def clusterWeightOf (g : AggGraph Rat) (i j : Nat) : Rat :=
+  wOf g.outW i + wOf g.outW j + wOf g.inW i + wOf g.inW j
+
 /-- the loop `for t in range(n - 1)` of `get_sampling_distributions` -/
 def samplingLoop (n : Nat) : List (Row α) → AggGraph Rat → Sampling → Sampling
   | [], _, acc => acc
   | r :: rs, g, acc =>
-    let i := r.i
-    let j := r.j
-    let e0 : Rat := if (row g.nb i).contains j then 2 * getEntry g.nb i j else 0
-    let nd0 : Rat := wOf g.outW i * wOf g.inW j + wOf g.outW j * wOf g.inW i
-    let cw : Rat := wOf g.outW i + wOf g.outW j + wOf g.inW i + wOf g.inW j
-    let nodes := if i = j then [i] else [i, j]
-    let (e, nd) := nodes.foldl (fun (p : Rat × Rat) node =>
-        if node < n then
-          (if (row g.nb node).contains node then p.1 + getEntry g.nb node node else p.1,
-           p.2 + wOf g.outW node * wOf g.inW node)
-        else p) (e0, nd0)
-    samplingLoop n rs (g.merge i j)
-      { edge := acc.edge ++ [e], node := acc.node ++ [nd], weight := acc.weight ++ [cw / 2] }
+    let p := samplingOf n g r.i r.j
+    samplingLoop n rs (g.merge r.i r.j)
+      { edge := acc.edge ++ [p.1], node := acc.node ++ [p.2],
+        weight := acc.weight ++ [clusterWeightOf g r.i r.j / 2] }
 
 def getSamplingDistributions (degree : Bool) (n : Nat) (a : Mat) (D : Dendro α) : Sampling :=
   -- the loop reads dendrogram[t] for t < n - 1
